@@ -20,7 +20,22 @@ def _pick(lst, n, rng):
 THOROUGH_SEEDS = 1
 
 
+def add_via(cs, every, ttm_scens=()):
+    """every `every`-th case is repeated with operands that are strided views of a larger object (and transposes for operators)"""
+    extra = []
+    for i, c in enumerate(cs):
+        if i % every == 0 and 'via' not in c['s'] and c['scen'] not in ('tt_factories', 'tt_cat_none'):
+            extra.append({**c, 's': dict(c['s'], via='sliced')})
+            if c['scen'] in ttm_scens:
+                extra.append({**c, 's': dict(c['s'], via='transposed')})
+    return cs + extra
+
+
 def cases(tier, seed):
+    return add_via(_cases(tier, seed), 6 if tier == 'quick' else 4)
+
+
+def _cases(tier, seed):
     rng = random.Random(seed)
     thorough = tier == 'thorough'
     cs = []
@@ -41,6 +56,10 @@ def cases(tier, seed):
                     if op == 'mul' and d >= 4 and max(R1) * max(R2) > 4 and not thorough:
                         continue
                     cs.append({'scen': 'tt_binop', 's': {'op': op, 'N1': N, 'R1': R1, 'N2': N, 'R2': R2, 'dtype': 'float64'}})
+    # ---- the two operands are the same object
+    for N, R in [([3], [1, 1]), ([2, 3], [1, 2, 1]), ([2, 1, 3], [1, 2, 2, 1])]:
+        for op in ('add', 'sub', 'mul'):
+            cs.append({'scen': 'tt_binop', 's': {'op': op, 'N1': N, 'R1': R, 'N2': N, 'R2': R, 'dtype': 'float64', 'alias': True}})
     # ---- broadcasting alignments (second operand broadcasts into the first)
     bc = [([2, 3, 4], [3, 4]), ([2, 3, 4], [4]), ([2, 3, 4], [1, 4]), ([2, 3, 4], [3, 1]), ([2, 3, 4], [1, 3, 1]),
           ([2, 3, 4], [1, 1, 1]), ([2, 3, 4], [2, 1, 4]), ([2, 3, 4], [1]), ([2, 3], [2, 1]), ([2, 3], [1, 3]),
